@@ -333,3 +333,73 @@ func VH_C13_ladn_indication_decode() {
 		vrt.Assert(got[i] == want[i], "LADN indication: DNN values recovered in order")
 	}
 }
+
+// Two encodings alive at once: the octets returned for one list are the caller's; encoding another list afterwards must
+// not change them, and overwriting them must not change what the next call returns. All list encoders.
+func VH_C13_results_held() {
+	which := vrt.Choose("encoder", 0, 4)
+	var pa c13plmn
+	if which <= 1 {
+		pa = c13mkplmn("a")
+	}
+	pb := pa
+	mk := func(tag string, n int, p c13plmn) []models.Tai {
+		var l []models.Tai
+		for i := 0; i < n; i++ {
+			id := p.id
+			l = append(l, models.Tai{PlmnId: &id, Tac: c13hexOf(vrt.Bytes(fmt.Sprintf("%stac%d", tag, i), 3))})
+		}
+		return l
+	}
+	var la, lb []models.Tai
+	var sa, sb models.Snssai
+	if which <= 1 {
+		la, lb = mk("x", vrt.Choose("na", 1, 2), pa), mk("y", vrt.Choose("nb", 1, 3), pb)
+	} else {
+		sa, _ = c13snssai("sa")
+		sb, _ = c13snssai("sb")
+	}
+	enc := func(first bool) []uint8 {
+		switch which {
+		case 0:
+			if first {
+				return TaiListToNas(la)
+			}
+			return TaiListToNas(lb)
+		case 1:
+			if first {
+				return LadnToNas("ab", la)
+			}
+			return LadnToNas("cde", lb)
+		case 2:
+			if first {
+				return SnssaiToNas(sa)
+			}
+			return SnssaiToNas(sb)
+		case 3:
+			if first {
+				return RejectedSnssaiToNas(sa, 1)
+			}
+			return RejectedSnssaiToNas(sb, 0)
+		default:
+			if first {
+				r := RejectedNssaiToNas([]models.Snssai{sa}, nil)
+				return r.Buffer
+			}
+			r := RejectedNssaiToNas([]models.Snssai{sb}, []models.Snssai{sa})
+			return r.Buffer
+		}
+	}
+	out1 := enc(true)
+	keep1 := append([]uint8{}, out1...)
+	out2 := enc(false)
+	keep2 := append([]uint8{}, out2...)
+	vrt.Equal(out1, keep1, "an encoding the caller holds is not changed by encoding another list")
+	for i := range out1 {
+		out1[i] = ^out1[i] // the caller reuses its buffer
+	}
+	vrt.Equal(out2, keep2, "two encodings share no memory")
+	again := enc(true)
+	vrt.Equal(again, keep1, "encoding the same list again gives the same octets, whatever happened to the earlier result")
+	vrt.Equal(out2, keep2, "the second encoding is not changed by a third call")
+}
